@@ -16,7 +16,7 @@ from ..translate import argflags, hashflags, hashsrc
 cfggen.NESTED_DEFAULTS = True
 
 PROP = "C02"
-MODULES = ["XpmVerif.Properties.C02", "XpmVerif.Properties.C02Decl", "XpmVerif.Properties.C02Env", "XpmVerif.Properties.C02Inherit", "XpmVerif.Proofs.ArgDecl", "XpmVerif.Properties.HashSrc"]
+MODULES = ["XpmVerif.Properties.C02", "XpmVerif.Properties.C02Decl", "XpmVerif.Properties.C02Env", "XpmVerif.Properties.C02Inherit", "XpmVerif.Properties.C02Deep", "XpmVerif.Proofs.ArgDecl", "XpmVerif.Properties.HashSrc"]
 
 
 def prove(ctx):
